@@ -3,7 +3,9 @@ package checks
 import (
 	"encoding/hex"
 	"fmt"
+	"math"
 	"sort"
+	"strconv"
 	"strings"
 
 	"verif/engine/internal/core"
@@ -218,10 +220,12 @@ func C03(ctx *core.Ctx) int {
 			}
 			// decoders on the reference bytes agree with each other (relational: no reference value consulted)
 			dumps := map[string]string{}
+			trees := map[string]*wire.Tree{}
 			for _, cc := range obs {
 				if o := cc.T.Out[fmt.Sprintf("DEC:%s.s0", m.ID)]; o != nil {
 					if o.Kind == "DEC" {
 						dumps[cc.Lang] = canonTree(pc.R, o.Tree)
+						trees[cc.Lang] = o.Tree
 					} else if o.ErrKind != "unsupported" {
 						dumps[cc.Lang] = "ERR"
 					}
@@ -236,7 +240,11 @@ func C03(ctx *core.Ctx) int {
 				for b := a + 1; b < len(dl); b++ {
 					st.evals++
 					if dumps[dl[a]] != dumps[dl[b]] {
-						ctx.Report(fmt.Sprintf("decoders disagree on the same bytes|%s vs %s|%s|%s", dl[a], dl[b], progClass(pc.Prog.Name), optsInForce(pc.Prog)),
+						where := "one of them rejects the bytes"
+						if trees[dl[a]] != nil && trees[dl[b]] != nil {
+							where = treeDiffWhere(pc.R, pc.R.Root, trees[dl[a]], trees[dl[b]])
+						}
+						ctx.Report(fmt.Sprintf("decoders disagree on the same bytes|%s vs %s|%s|%s", dl[a], dl[b], where, optsInForce(pc.Prog)),
 							fmt.Sprintf("program %s message %s bytes %s\n%-7s %s\n%-7s %s", pc.Prog.Name, m.ID, core.Trunc(hexOf(pc.Encs[i].Bytes), 200), dl[a], core.Trunc(dumps[dl[a]], 400), dl[b], core.Trunc(dumps[dl[b]], 400)),
 							map[string]any{"name": pc.Prog.Name, "message": m.ID, "text": pc.Text, "langs": []string{dl[a], dl[b]}})
 					}
@@ -321,42 +329,144 @@ func C03(ctx *core.Ctx) int {
 	return ctx.Finish("exploration", cov)
 }
 
-// canonTree renders a decoded tree with normalised member names (sorted) so that two languages' dumps compare.
+// canonTree renders a decoded tree in a language-neutral canonical form, directed by the packet's
+// schema: integers as bit patterns of the declared width, empty/nil strings and lists alike, member
+// names normalised and sorted. Members the schema does not know are kept (normalised) at the end.
 func canonTree(r *wire.RProgram, t *wire.Tree) string {
-	if t == nil {
+	return canonObj(r, r.Root, t)
+}
+
+// treeDiffWhere names the kind of the first member on which two decoded trees differ.
+func treeDiffWhere(r *wire.RProgram, pk *wire.RPacket, a, b *wire.Tree) string {
+	if a == nil || b == nil || a.Kind != 'P' || b.Kind != 'P' || pk == nil {
+		return "object"
+	}
+	ia, ib := map[string]*wire.Tree{}, map[string]*wire.Tree{}
+	for i, n := range a.Names {
+		ia[wire.Norm(n)] = a.Fields[i]
+	}
+	for i, n := range b.Names {
+		ib[wire.Norm(n)] = b.Fields[i]
+	}
+	for _, f := range pk.Fields {
+		fa, fb := ia[wire.Norm(f.Name)], ib[wire.Norm(f.Name)]
+		if canonField(r, f, fa, false) == canonField(r, f, fb, false) {
+			continue
+		}
+		k := f.Kind.String()
+		if f.Repeat {
+			k = "repeated " + k
+		}
+		if !f.Repeat && f.Kind == wire.KObj {
+			return nestedWhere(treeDiffWhere(r, f.Packet, fa, fb))
+		}
+		if f.Kind == wire.KMatch && fa != nil && fb != nil && fa.Kind == 'P' && fb.Kind == 'P' && wire.Norm(fa.Packet) == wire.Norm(fb.Packet) {
+			for _, p2 := range r.Order {
+				if wire.Norm(p2.Name) == wire.Norm(fa.Packet) {
+					return nestedWhere(treeDiffWhere(r, p2, fa, fb))
+				}
+			}
+		}
+		return k
+	}
+	return "object"
+}
+
+func nestedWhere(w string) string {
+	if strings.HasSuffix(w, "(nested)") {
+		return w
+	}
+	return w + " (nested)"
+}
+
+func canonObj(r *wire.RProgram, pk *wire.RPacket, t *wire.Tree) string {
+	if t == nil || t.Kind == 'n' {
 		return "nil"
 	}
-	switch t.Kind {
-	case 'n':
-		return "nil"
-	case 'i':
-		return "i:" + t.Int
-	case 'c':
-		return fmt.Sprintf("i:%d", t.Bits)
-	case 'f':
-		return fmt.Sprintf("f:%x", t.Bits)
-	case 's':
-		if t.Str == "" {
-			return "nil"
+	if t.Kind != 'P' {
+		return "?" + string(t.Kind)
+	}
+	idx := map[string]*wire.Tree{}
+	for i, n := range t.Names {
+		idx[wire.Norm(n)] = t.Fields[i]
+	}
+	var p []string
+	if pk != nil {
+		for _, f := range pk.Fields {
+			p = append(p, wire.Norm(f.Name)+"="+canonField(r, f, idx[wire.Norm(f.Name)], false))
 		}
-		return "s:" + t.Str
-	case '[':
-		if len(t.List) == 0 {
-			return "nil"
+	}
+	name := wire.Norm(t.Packet)
+	if pk != nil && pk.Inline && strings.HasSuffix(name, wire.Norm(pk.Name)) {
+		name = wire.Norm(pk.Name)
+	}
+	return "P:" + name + "{" + strings.Join(p, " ") + "}"
+}
+
+func canonField(r *wire.RProgram, f *wire.RField, t *wire.Tree, elem bool) string {
+	if f.Repeat && !elem {
+		if t == nil || t.Kind != '[' || len(t.List) == 0 {
+			return "[]"
 		}
 		var p []string
 		for _, e := range t.List {
-			p = append(p, canonTree(r, e))
+			p = append(p, canonField(r, f, e, true))
 		}
 		return "[" + strings.Join(p, " ") + "]"
-	case 'P':
-		var p []string
-		for i, n := range t.Names {
-			p = append(p, wire.Norm(n)+"="+canonTree(r, t.Fields[i]))
+	}
+	switch f.Kind {
+	case wire.KInt, wire.KLenOf, wire.KChecksum, wire.KChar:
+		if t == nil {
+			return "missing"
 		}
-		sort.Strings(p)
-		name := wire.Norm(t.Packet)
-		return "P:" + name + "{" + strings.Join(p, " ") + "}"
+		var b uint64
+		switch t.Kind {
+		case 'i':
+			if strings.HasPrefix(t.Int, "-") {
+				n, _ := strconv.ParseInt(t.Int, 10, 64)
+				b = uint64(n)
+			} else {
+				b, _ = strconv.ParseUint(t.Int, 10, 64)
+			}
+		case 'c':
+			b = t.Bits
+		case 's':
+			if len(t.Str) == 1 {
+				b = uint64(t.Str[0])
+			}
+		default:
+			return "?" + string(t.Kind)
+		}
+		w := uint(8 * dsl.Width(f.Type))
+		if w < 64 {
+			b &= (uint64(1) << w) - 1
+		}
+		return fmt.Sprintf("i:%x", b)
+	case wire.KFloat:
+		if t == nil || t.Kind != 'f' {
+			return "missing"
+		}
+		if f := math.Float64frombits(t.Bits); f != f {
+			return "f:nan"
+		}
+		return fmt.Sprintf("f:%x", t.Bits)
+	case wire.KFixStr, wire.KDynStr:
+		if t == nil || t.Kind != 's' {
+			return "s:"
+		}
+		return "s:" + t.Str
+	case wire.KObj:
+		return canonObj(r, f.Packet, t)
+	case wire.KMatch:
+		if t == nil || t.Kind != 'P' {
+			return "nil"
+		}
+		for _, pk := range r.Order {
+			if wire.Norm(pk.Name) == wire.Norm(t.Packet) {
+				return canonObj(r, pk, t)
+			}
+		}
+		return "P:" + wire.Norm(t.Packet) + "{?}"
 	}
 	return "?"
 }
@@ -387,6 +497,9 @@ func projection(ctx *core.Ctx, progs []*dsl.Program, kind wire.FKind, rule strin
 				}
 			} else if o.ErrKind != "unsupported" && kind == wire.KMatch {
 				ctx.Report(fmt.Sprintf("%s|encoder fails on a message with a mapped key|%s|%s", l, errWord(o.ErrText), progClass(pc.Prog.Name)),
+					fmt.Sprintf("program %s message %s: %s", pc.Prog.Name, m.ID, o.ErrText), rep)
+			} else if o.ErrKind != "unsupported" {
+				ctx.Report(fmt.Sprintf("%s|encoder fails on a message of a packet with a %s field|%s|%s", l, kind, errWord(o.ErrText), progClass(pc.Prog.Name)),
 					fmt.Sprintf("program %s message %s: %s", pc.Prog.Name, m.ID, o.ErrText), rep)
 			}
 			for _, si := range suffixCount(i) {
